@@ -834,8 +834,6 @@ Local Open Scope string_scope. Local Open Scope N_scope.`, "ep_case",
 		if d.Format == "swagger" && o.Proj != nil {
 			if !flatOAS(d) {
 				c.Hist("doc-model:outside-subset(inline-object)")
-			} else if orderDependentArray(d) {
-				c.Hist("doc-model:not-compared(output depends on Go's map order)")
 			} else if g, ok := gProj(o.Proj); ok {
 				if rets, ok := gRets(o.EpProj); ok {
 					oc.Add(fmt.Sprintf("((%s, %s), (%s, %s))", gOasDoc(d), gOps(d), g, rets), d)
